@@ -48,6 +48,42 @@ func c15r1(p *Program, r *Report) {
 			}
 		}
 		r.Check(more, as, "(*Conn).executeQuery schedules a next page only if the response has more pages", "dominated by x.meta.morePages()", "a follow-up page is scheduled although the response did not say has_more_pages: a page is requested after the last one")
+		// the has_more_pages flag that is tested is the one of this response: the metadata cached with the prepared
+		// statement (used when the server skips metadata) never carries it
+		if more {
+			frameVar := ""
+			if ts, ok := p.enclosing(as, fi.Decl, func(n ast.Node) bool { _, is := n.(*ast.TypeSwitchStmt); return is }).(*ast.TypeSwitchStmt); ok {
+				if a, ok := ts.Assign.(*ast.AssignStmt); ok && len(a.Lhs) == 1 {
+					frameVar = exprStr(a.Lhs[0])
+				}
+			}
+			fromResponse := true
+			why := ""
+			for atom, v := range f.m {
+				if !v || !strings.HasSuffix(atom, ".morePages()") {
+					continue
+				}
+				recv := strings.TrimSuffix(atom, ".morePages()")
+				if frameVar != "" && strings.HasPrefix(recv, frameVar+".") {
+					continue
+				}
+				// another holder of metadata: every whole assignment to it must copy the response's metadata
+				ast.Inspect(fi.Decl.Body, func(y ast.Node) bool {
+					a2, ok := y.(*ast.AssignStmt)
+					if !ok || len(a2.Lhs) != len(a2.Rhs) {
+						return true
+					}
+					for i, l := range a2.Lhs {
+						if exprStr(l) == recv && !(frameVar != "" && strings.HasPrefix(exprStr(a2.Rhs[i]), frameVar+".")) {
+							fromResponse = false
+							why = recv + " = " + exprStr(a2.Rhs[i])
+						}
+					}
+					return true
+				})
+			}
+			r.Check(fromResponse, as, "(*Conn).executeQuery reads has_more_pages from this response's metadata", "the tested metadata is the frame's own", "the has_more_pages test is made on metadata that can be the prepared statement's cached copy ("+why+"): with skip-metadata (the default for prepared statements) the flag is never set there, so iteration silently ends after the first page")
+		}
 		r.Check(auto, as, "(*Conn).executeQuery schedules a next page only with automatic paging on", "dominated by !qry.disableAutoPage", "a follow-up page is scheduled although the caller supplied a page state (manual paging fetches exactly one page)")
 		return true
 	})
